@@ -302,7 +302,7 @@ func cmdRun(args []string) int {
 	active := map[string]Finding{}
 	var sites []interp.KnownSite
 	for _, f := range findings {
-		if f.Property == prop && f.Status == "known" {
+		if hasProp(f.Property, prop) && f.Status == "known" {
 			active[f.ID] = f
 			if f.PanicSite != "" {
 				sites = append(sites, interp.KnownSite{ID: f.ID, Contains: f.PanicSite})
@@ -561,6 +561,15 @@ func cmdRun(args []string) int {
 	}
 	fmt.Printf("OK property=%s tier=%s paths=%d wall=%.1fs\n", prop, *tier, totalPaths, time.Since(t0).Seconds())
 	return 0
+}
+
+func hasProp(list, p string) bool {
+	for _, x := range strings.Split(list, ",") {
+		if strings.TrimSpace(x) == p {
+			return true
+		}
+	}
+	return false
 }
 
 func max64(a, b int64) int64 {
